@@ -97,7 +97,9 @@ def strat_cost(draw, tier="quick"):
         st.fixed_dictionaries({"op": st.sampled_from(["fix_multi", "fix_member", "release_multi"]), "i": ref, "m": ref, "d": st.floats(-0.2, 0.2)}),
         st.fixed_dictionaries({"op": st.just("check")}),
     ), min_size=1, max_size=8))
-    return {"members": members, "shared": shared, "constraints": cons, "ops": ops, "truth": truth, "names": allnames}
+    # members whose own sources and constraints are declared only *after* the MultiFit has been built from them (through the member fit)
+    late = sorted(draw(st.sets(st.integers(0, k - 1), max_size=k))) if draw(st.integers(0, 2)) == 0 else []
+    return {"members": members, "shared": shared, "constraints": cons, "ops": ops, "truth": truth, "names": allnames, "late": late}
 
 
 def _truncate(m, n):
@@ -147,12 +149,19 @@ def run_cost(case):
     refs = [fs.Ref(m) for m in members]
     names = case["names"]
     truth = case["truth"]
+    late = set(case.get("late", []))
     with guard("build-members"):
-        fits = [fs.build(m, apply_params=False) for m in members]
+        fits = [fs.build(m, apply_params=False, apply_sources=(i not in late)) for i, m in enumerate(members)]
     with guard("MultiFit"):
         multi = kafe2.MultiFit(fits)
     if list(multi.parameter_names) != names:
         raise Violation("multi-parameter-names", f"{list(multi.parameter_names)} vs union in order of first appearance {names}")
+    for i in sorted(late):
+        with guard("member.add_error(after MultiFit)"):
+            for s in members[i].get("sources", []):
+                fs.add_source(fits[i], members[i], s)
+            for con in members[i].get("constraints", []):
+                fs.add_constraint(fits[i], con)
     for s in case["shared"]:
         n = refs[s["fits"][0]].n
         with guard("multi.add_error(shared)"):
@@ -174,6 +183,8 @@ def run_cost(case):
     vals = {nm: 1.0 for nm in names}
     fixed = set()
     labels = {f"members={len(members)}"}
+    if late:
+        labels.add("member_sources_declared_after_MultiFit")
     shared_par = len(names) < sum(len(r.names) for r in refs)
     nonmono = any([names.index(nm) for nm in r.names] != sorted(names.index(nm) for nm in r.names) for r in refs)
 
